@@ -311,7 +311,50 @@ def _ewreg_shard(cases):
     return n, bad
 
 
+REQUANT_SCALES = [(0.0235294, 0.0431373), (0.05, 0.0078431), (0.1, 0.3), (0.0078125, 0.015625), (0.00392157, 0.0235294), (0.7, 0.011), (0.02, 0.02000001), (1.0 / 3, 0.0123)]
+
+
+def _requant_shard(cases):
+    """QUANTIZE as compiled from a .tflite file (float32 scales from the reader): the OFM scale programmed for the re-quantising pool operation,
+    decoded from the output file, must be the reference pair of double(s_in) / double(s_out)"""
+    core.bind_repo()
+    from .. import compile as C
+    from .. import netrun, outfile
+    from ..tfl import build, nets
+
+    bad = []
+    n = 0
+    for (dt, si, so, acc) in cases:
+        net = nets.Net(0)
+        x = net.act([1, 4, 4, 8], dt, name="input", q=(si, 0 if dt != "uint8" else 128))
+        net.inputs.append(x)
+        net.open.append(x)
+        net.cur = x
+        y = net.act([1, 4, 4, 8], dt, q=(so, 0 if dt != "uint8" else 121))
+        net.op("QUANTIZE", [x], [y], ("QuantizeOptions", {}))
+        rec = C.compile_main(build.serialise(net.model()), dict(acc=acc, mem="default", opt="Performance", arena=None, alloc="HillClimb", align=16), want_sideband=False)
+        if rec["status"] != 0 or rec["out"] is None:
+            continue
+        an = outfile.analyse(rec["out"])
+        for s_ in netrun.decode_streams(an, rec, acc):
+            for op in s_.ops:
+                if op.kind != "pool":
+                    continue
+                n += 1
+                m, sh = op.r("OFM_SCALE", (0, 0))
+                exact = Fr(float(np.float32(si))) / Fr(float(np.float32(so)))
+                em, esh = ref_qm(exact)
+                if (m, sh) != (em, esh):
+                    rel = abs(Fr(m, 1 << sh) - exact) / exact
+                    bad.append(((dt, si, so, acc), "OFM scale (%d, %d) programmed for the re-quantisation %r -> %r, reference (%d, %d); relative error 2^%.1f" % (
+                        m, sh, si, so, em, esh, math.log2(float(rel)) if rel else -99)))
+    return n, bad
+
+
 def replay(ctx, case):
+    if case.get("kind") == "requant":
+        n, bad = _requant_shard([tuple(case["case"])])
+        return [b[1] for b in bad]
     if case.get("kind") == "ewreg":
         n, bad = _ewreg_shard([tuple(case["case"])])
         return [b[1] for b in bad]
@@ -380,6 +423,11 @@ def run(ctx):
         for case, what in bad:
             sub, dt, s1, s2, so = case
             ctx.violation("ewreg|%s|%s|ratio=%.3g" % (sub, dt, s2 / s1 - 1), "%s %s with input scales %r, %r and output scale %r: %s" % (sub, dt, s1, s2, so, what), dict(kind="ewreg", case=list(case)))
+    rq = [(dt, si, so, acc) for dt in ("int8", "int16", "uint8") for (si, so) in REQUANT_SCALES for acc in (("ethos-u55-128",) if quick else ("ethos-u55-64", "ethos-u55-128", "ethos-u65-512"))]
+    for n, bad in pmap(_requant_shard, [rq[i:i + 4] for i in range(0, len(rq), 4)]):
+        ctx.count("requantise_register_cases", n)
+        for case, what in bad:
+            ctx.violation("requant|%s|%r>%r" % (case[0], case[1], case[2]), what, dict(kind="requant", case=list(case)))
     # per-channel scale records as stored for the hardware (weight_compressor._prepare_scale_and_bias picks the derivation by operator
     # kind and data type): every (kind, data type, per-channel, converted-convolution) class through the real tensor assembly
     from . import c08
